@@ -54,7 +54,7 @@ _Q = {
     'empty-view': 30, 'start>stop': 15, 'boundary-hit': 60, 'enlarging-slice': 40, 'slice-of-subset': 30,
     'subset-of-slice': 30, 'nul-family-ids': 60, 'prefix-family-ids': 40, 'rowchanging-pre': 10,
     'out-of-view-probe-nul-variant': 600,
-    'hit:interleaved-scans': 5000, 'mon:interleave': 40000,
+    'hit:interleaved-scans': 5000, 'mon:interleave': 40000, 'hit:invalid-subset-request': 800,
 }
 _BULK = {'hit:bulk-absolute-path': 6, 'hit:bulk-relative-path': 6}
 # thorough runs 10x the quick number of histories
@@ -147,7 +147,12 @@ def make_bfn(k):
     out['btrace'] = ex['btrace'] * 37 + k + ex['trace']
     return out
 
-  return g
+  def g_inplace(ex):
+    # the common "update the dict you are given and return it" style: same values as g
+    ex['btrace'] = ex['btrace'] * 37 + k + ex['trace']
+    return ex
+
+  return g_inplace if k % 2 else g
 
 
 # -------------------------------------------------------------- reference model
@@ -739,6 +744,25 @@ def run_case(ctx, fedjax, mods, rng, tmpdir, case_no):
           ctx.count('stack-stopped:' + name)
       model = new
       observe_all()
+      # a subset request naming an id that is NOT in the view it is taken from (but exists elsewhere in the dataset) must be
+      # refused with ValueError (validate=True), whatever the view is made of (slices, subsets of subsets, preprocessed views)
+      outside = [c for c in universe if c not in model.idset]
+      if outside:
+        bad = outside[t % len(outside)]
+        req = list(model.ids[:1]) + [bad]
+        for name in STACKS:
+          if dead.get(name) or not stacks[name]:
+            continue
+          w = dict(base_wit, stack=name, ops=tuple(descrs), requested=req, id_outside_view=bad)
+          r = ctx.call('SubsetFederatedData', fdm.SubsetFederatedData, stacks[name][-1].view, list(req), expect=(ValueError,), witness=w)
+          ctx.count('hit:invalid-subset-request')
+          if r.ok:
+            exposed = ctx.call('client_ids', lambda: list(r.value.client_ids()), witness=w)
+            ctx.check(False, 'subset/id-outside-view-accepted',
+                      'SubsetFederatedData(view, ids, validate=True) accepted an id that is not in the view' +
+                      (f' and exposes {exposed.value}' if exposed.ok else ''), w)
+          else:
+            ctx.check(isinstance(r.exc, ValueError), 'subset/id-outside-view-accepted', 'refused with another exception', w)
 
     if any(c + b'\x00' in model0.idset for c in ids):
       klass.add('nul-family-ids')
